@@ -13,8 +13,8 @@ def reconciledHashes : List (String × String) := [
   ("fitRecvLimit", "db1c29e8e4a91fff2202a4f7740a192a8fa4175f2fad7a725fbf3b4722b080a3"),
   ("intToBytes", "c0cf31b1186820c5958a89a57e9b82302dbaf0c22d41e4da456b89a68fa36b94"),
   ("bytesToInt", "65b747c01985c66b23b7ef78f12f12066fe51e44f51dd7d6e8ab315aef8e559e"),
-  ("sendHandler", "7da960743a3676e2b9d29647adf470280e878f23b8820018001c81add7356306"),
-  ("recvHandler", "3fb640758a93b08d2a262abea0976faeda6084f60aa837826a68de78eb5f2b25"),
+  ("sendHandler", "054f65818eaf2a06cfa507366096312b891edbeab6b604725654b152299cfdfc"),
+  ("recvHandler", "c16a243ddb60aa6b686bf7abca7116533c30205755d9ae2ef47fce7dd9d7a724"),
   ("serverHandshake", "eaef51b9d879c52a15a8e2c44a8625924034482b8af5a69b0273b913964da9eb"),
   ("clientHandshake", "87040126c0df91e8a7634afa61fdb48693953e196dfedbf90030a5742717fae0")
 ]
